@@ -13,7 +13,7 @@ struct _generic_SUNMatrix {
     realtype *data;
     realtype **cols;
     /* sparse: exactly NNZ values / NNZ index values / NP+1 index pointers */
-    sunindextype NNZ, NP;
+    sunindextype nnz_, NP;
     int sparsetype;
     sunindextype *indexvals;
     sunindextype *indexptrs;
@@ -28,7 +28,7 @@ static inline int SUNMatZero(SUNMatrix A) {
     if (A->kind == VERIF_MAT_DENSE) {
         for (sunindextype i = 0; i < A->M * A->N; i++) A->data[i] = 0.0;
     } else {
-        for (sunindextype i = 0; i < A->NNZ; i++) { A->data[i] = 0.0; A->indexvals[i] = 0; }
+        for (sunindextype i = 0; i < A->nnz_; i++) { A->data[i] = 0.0; A->indexvals[i] = 0; }
         for (sunindextype i = 0; i < A->NP + 1; i++) A->indexptrs[i] = 0;
     }
     return 0;
